@@ -56,8 +56,15 @@ type CompleteMultipartUploadRequest struct {
 	Parts []CompletedPart `xml:"Part"`
 }
 
+// partsAreSorted reports whether the parts are listed in ascending part
+// number order, as they were sent.
 func (c CompleteMultipartUploadRequest) partsAreSorted() bool {
-	return sort.IntsAreSorted(c.partIDs())
+	for i := 1; i < len(c.Parts); i++ {
+		if c.Parts[i].PartNumber <= c.Parts[i-1].PartNumber {
+			return false
+		}
+	}
+	return true
 }
 
 func (c CompleteMultipartUploadRequest) partIDs() []int {
